@@ -64,13 +64,21 @@ def _row(fmt: str, k: int, model: int, chain: str, het: bool = False) -> Dict[st
 
 
 # (tag, [(model, chain)] per row)
-TABLES: List[Tuple[str, List[Tuple[int, str]]]] = [
+TABLES: List[Tuple[Any, ...]] = [
+    ("no atoms", []),
     ("one model, one chain", [(1, "A"), (1, "A"), (1, "A")]),
     ("one model, chains A and B", [(1, "A"), (1, "A"), (1, "B"), (1, "B")]),
     ("two models of the single chain A", [(1, "A"), (1, "A"), (2, "A"), (2, "A")]),
     ("two models, each with chains A and B", [(1, "A"), (1, "B"), (2, "A"), (2, "B")]),
     ("model 1 = chain A, model 2 = chain B", [(1, "A"), (2, "B")]),
     ("three models of one atom each, same chain", [(1, "A"), (2, "A"), (3, "A")]),
+    # rows whose (model, chain) sequence is not sorted: the order of the rows is data, the writer has to keep it
+    ("chain B listed before chain A", [(1, "B"), (1, "B"), (1, "A"), (1, "A")]),
+    ("hetero atoms of chain A listed after chain B", [(1, "A"), (1, "A"), (1, "B"), (1, "A")]),
+    ("model 2 listed before model 1", [(2, "A"), (2, "A"), (1, "A"), (1, "A")]),
+    ("lower-case chain before upper-case chain", [(1, "b"), (1, "B")]),
+    # no field of the rows is in ascending order (serials, residue numbers, coordinates, names): sorting by any of them permutes the rows
+    ("one chain whose atoms are listed in no particular order of serial / number / coordinate", [(1, "A"), (1, "A"), (1, "A"), (1, "A")], [2, 0, 3, 1]),
 ]
 
 
@@ -135,16 +143,26 @@ def write_pdb_callable(repo):
             continue
         names.add(n)
         todo += [astq.callee_name(c) for c in ast.walk(m.funcs[n].node) if isinstance(c, ast.Call) and astq.callee_name(c) in m.funcs]
-    env: Dict[str, Any] = {"io": Obj("io", StringIO=Buffer), "StringIO": Buffer}
+    from sa.frame import pd_namespace
+
+    env: Dict[str, Any] = {"io": Obj("io", StringIO=Buffer), "StringIO": Buffer, "pd": pd_namespace()}
     env.update(module_callables(repo, M, names=names, outer=env))
     return wp, func_callable(repo, M, wp.node, env, max_steps=40000)
 
 
 def run_write_pdb(call, fmt: str, rows: List[Dict[str, Any]]) -> List[str]:
-    df = Obj("df", attrs={"format": fmt}, empty=not rows, iterrows=lambda: list(enumerate(rows)), columns=list(rows[0]) if rows else [])
+    from sa.frame import frame_from_rows
+
+    # the table as the readers build it (sa/frame.py, the stand-in for pandas): row labels 0..n-1, missing values as None
+    df = frame_from_rows(rows, fmt)
     text = call(df, None)
     if not isinstance(text, str):
         raise Unknown("write_pdb(df, None) does not return text")
+    if len(rows) <= 3:
+        # the same table written into a file-like object: the same text arrives there and nothing is returned
+        sink = Buffer()
+        if call(frame_from_rows(rows, fmt), sink) is not None or sink.getvalue() != text:
+            raise Raised("AssertionError", "write_pdb(df, file) does not deliver the text it returns for write_pdb(df, None)")
     return text.split("\n")[:-1] if text.endswith("\n") else text.split("\n")
 
 
@@ -160,13 +178,19 @@ def check_write_pdb_eval(chk) -> bool:
     trip_bad: Dict[str, Any] = {}
     width_bad: List[str] = []
     model_bad: List[str] = []
+    perm_bad: List[Tuple[str, str]] = []
     n_tables = n_ter = n_atoms = 0
+    from sa.fragment import coverage
+
+    _cov = coverage()
+    cov = _cov.__enter__()
     try:
         for fmt in ("PDB", "mmCIF"):
-            for tag, spec_rows in TABLES:
-                pdb_rows = [_row("PDB", k, m_, c) for k, (m_, c) in enumerate(spec_rows)]
-                rows = [_row(fmt, k, m_, c, het=(k % 4 == 3)) for k, (m_, c) in enumerate(spec_rows)]
-                for k, r in enumerate(pdb_rows):
+            for tag, spec_rows, *perm in TABLES:
+                ks = perm[0] if perm else list(range(len(spec_rows)))  # which representative row stands at each position
+                pdb_rows = [_row("PDB", k, m_, c) for k, (m_, c) in zip(ks, spec_rows)]
+                rows = [_row(fmt, k, m_, c, het=(k % 4 == 3)) for k, (m_, c) in zip(ks, spec_rows)]
+                for k, r in zip(ks, pdb_rows):
                     r["record_type"] = "HETATM" if k % 4 == 3 else "ATOM"
                 try:
                     lines = run_write_pdb(call, fmt, rows)
@@ -181,6 +205,12 @@ def check_write_pdb_eval(chk) -> bool:
                 n_tables += 1
                 want = expected_records(pdb_rows)
                 got = [_kind(l) for l in lines]
+                # the atom records, in the order written, are the rows of the table in their order (serials identify the rows)
+                written = [str((v2_decode(repo, l)[0] or {}).get("serial")).strip() for l in lines if _kind(l) == "ATOM"]
+                serials = [str(r["serial"]) for r in pdb_rows]
+                if written != serials and sorted(written) == sorted(serials):
+                    perm_bad.append((f"{fmt} table, {tag}", f"rows with serials {serials} are written in the order {written}"))
+                    continue
                 if got != [w for w, _ in want]:
                     k = next((i for i in range(min(len(got), len(want))) if got[i] != want[i][0]), min(len(got), len(want)))
                     g = got[k] if k < len(got) else "<end of file>"
@@ -221,6 +251,8 @@ def check_write_pdb_eval(chk) -> bool:
     except Unknown as ex:
         chk.ok("write-pdb-eval", wp.where, f"write_pdb is not evaluable on representative tables ({str(ex)[:90]}): the pinned-form rules decide")
         return False
+    finally:
+        _cov.__exit__(None, None, None)
     loops = [l for l in wp.node.body if isinstance(l, ast.For)]
     site = wp.site(loops[0]) if loops else wp.where
     with evidence(chk, "record-order", "ter-line", "ter-provenance", "pdb-round-trip", "model-line"):
@@ -233,7 +265,7 @@ def check_write_pdb_eval(chk) -> bool:
                 continue
             seen.add(key)
             chk.violation("record-order", site, f"{where}: {what}", K(wp, "record-order"), found=what)
-        for tag, _ in TABLES:
+        for tag, *_ in TABLES:
             if tag not in failed_tables:
                 chk.ok("record-order", site, f"evaluated ({tag}; PDB and mmCIF rows): MODEL opens every model, TER closes every chain (also the last chain of a model, before ENDMDL), ENDMDL closes every model, END ends the file")
         if ter_bad:
@@ -248,6 +280,20 @@ def check_write_pdb_eval(chk) -> bool:
             chk.ok("model-line", site, "evaluated: MODEL serial is written right-justified to columns 11-14")
         if width_bad:
             chk.violation("ter-line", site, width_bad[0], K(wp, "line-width"))
+        from checks.c08e import new_helpers, report_silent_exits
+
+        helpers = [g for g in new_helpers(repo, M)] + ([repo.func(M, "_format_pdb_atom_line")] if repo.has_func(M, "_format_pdb_atom_line") else [])
+        report_silent_exits(chk, "pdb-round-trip", [wp] + [g for g in helpers if g is not wp], cov, "tables (every (model, chain) transition, ATOM and HETATM rows, both row formats, an empty table)", {"continue": "the row is not written: an atom of the table is missing from the file", "break": "writing stops there: the rows that follow are missing from the file", "return": "the text is returned before all rows are written"})
+        if perm_bad:
+            where, what = perm_bad[0]
+            chk.violation(
+                "pdb-round-trip",
+                site,
+                f"{where}: {what} - the atom records are not written in the order of the table's rows, so the table read back is a permutation of the table written "
+                "(record positions, ascending serials and the residues a TER closes change); the order of the rows is part of the data",
+                K(wp, "row-order"),
+                found=[f"{a}: {b}" for a, b in perm_bad[:4]],
+            )
         if trip_bad:
             for where, d in trip_bad.items():
                 bits = "; ".join(f"{f}: `{w}` written, `{g}` read back" if f != "line" else str(w if isinstance(w, str) else (w, g)) for f, (w, g) in ((f, v if isinstance(v, tuple) else (v, None)) for f, v in d.items()))
@@ -340,3 +386,384 @@ def check_atom_data_keys(chk) -> None:
                 )
             else:
                 chk.ok("atom-data-keys", wp.site(st), f"supplies all {len(reads)} keys the formatter reads")
+
+
+# --------------------------------------------------------------------------------------------------------------------
+# round 4: the atom line decided on the text write_pdb produces for probe rows (whatever the formatter looks like)
+# --------------------------------------------------------------------------------------------------------------------
+BASE_ROW = {"record_type": "HETATM", "serial": 12345, "name": "HO5'", "altLoc": "B", "resName": "GTP", "chainID": "X", "resSeq": 1234, "iCode": "C", "x": 1234.567, "y": -123.456, "z": 12.345,
+            "occupancy": 0.75, "tempFactor": 123.45, "element": "MG", "charge": "2+", "model": 1}
+# another value of full width per field, and the text the format prescribes for it
+VARIANT = {"record_type": ("ATOM", "ATOM  "), "serial": (54321, "54321"), "name": ("1H5'", "1H5'"), "altLoc": ("A", "A"), "resName": ("PSU", "PSU"), "chainID": ("q", "q"), "resSeq": (-987, "-987"), "iCode": ("Z", "Z"),
+           "x": (-999.999, "-999.999"), "y": (8765.432, "8765.432"), "z": (-54.321, " -54.321"), "occupancy": (1.0, "  1.00"), "tempFactor": (-12.34, "-12.34"), "element": ("ZN", "ZN"), "charge": ("1-", "1-")}
+# short / special values: (field, value, text of the field's columns, which rule states it)
+SHORT = [
+    ("serial", 7, "    7", "justification"), ("resName", "G", "  G", "justification"), ("resSeq", -3, "  -3", "justification"), ("resSeq", 5, "   5", "justification"), ("element", "P", " P", "justification"),
+    ("record_type", "ATOM", "ATOM  ", "justification"), ("altLoc", None, " ", "justification"), ("iCode", None, " ", "justification"), ("element", None, "  ", "justification"),
+    ("name", "P", " P  ", "atom-name-alignment"), ("name", "C4'", " C4'", "atom-name-alignment"), ("name", "OP1", " OP1", "atom-name-alignment"), ("name", "N1", " N1 ", "atom-name-alignment"),
+    ("name", "HO5'", "HO5'", "atom-name-alignment"), ("name", "1HB", "1HB ", "atom-name-alignment"), ("name", "MG", " MG ", "atom-name-alignment"),
+    ("x", 0.5, "   0.500", "numeric-format"), ("x", 1.23456, "   1.235", "numeric-format"), ("y", -0.0004, "  -0.000", "numeric-format"), ("z", 100.0, " 100.000", "numeric-format"),
+    ("occupancy", 0.456, "  0.46", "numeric-format"), ("occupancy", 1, "  1.00", "numeric-format"), ("tempFactor", 7.125, "  7.12", "numeric-format"), ("tempFactor", 99.999, "100.00", "numeric-format"),
+    ("charge", None, "  ", "charge-format"), ("charge", "", "  ", "charge-format"), ("charge", "1+", "1+", "charge-format"), ("charge", "2-", "2-", "charge-format"), ("charge", "1", "1+", "charge-format"),
+    ("charge", "-2", "2-", "charge-format"), ("charge", 1, "1+", "charge-format"), ("charge", -2, "2-", "charge-format"), ("charge", "0", "  ", "charge-format"),
+]
+CIF_OF = {"record_type": "group_PDB", "serial": "id", "name": "auth_atom_id", "altLoc": "label_alt_id", "resName": "auth_comp_id", "chainID": "auth_asym_id", "resSeq": "auth_seq_id", "iCode": "pdbx_PDB_ins_code",
+          "x": "Cartn_x", "y": "Cartn_y", "z": "Cartn_z", "occupancy": "occupancy", "tempFactor": "B_iso_or_equiv", "element": "type_symbol", "charge": "pdbx_formal_charge", "model": "pdbx_PDB_model_num"}
+
+
+def _atom_line(call, fmt: str, row: Dict[str, Any]) -> str:
+    from sa.frame import frame_from_rows
+
+    r = dict(row)
+    if fmt == "mmCIF":
+        out: Dict[str, Any] = {}
+        for f, v in r.items():
+            for it in PDB_TO_CIF_ROW[f]:
+                out[it] = v
+        r = out
+    text = call(frame_from_rows([r], fmt), None)
+    if not isinstance(text, str):
+        raise Unknown("write_pdb(df, None) does not return text")
+    lines = [l for l in text.split("\n") if _kind(l) == "ATOM"]
+    if len(lines) != 1:
+        raise Raised("AssertionError", f"a one-row table is written as {len(lines)} atom lines")
+    return lines[0]
+
+
+def check_atom_line_eval(chk) -> Optional[Dict[str, Tuple[int, int]]]:
+    """Where each field of a row lands in the atom line and how it is formatted, read off the text write_pdb produces for probe rows.
+    Returns the column layout found (field -> columns), or None when write_pdb is not evaluable (the abstract width reading decides)."""
+    repo = chk.repo
+    sp = spec("pdb_columns.json")
+    try:
+        wp, call = write_pdb_callable(repo)
+    except Unknown:
+        return None
+    fm = repo.func(M, "_format_pdb_atom_line") if repo.has_func(M, "_format_pdb_atom_line") else wp
+    layout: Dict[str, Optional[Tuple[int, int]]] = {}
+    bad: Dict[str, List[str]] = {}
+    try:
+        for fmt in ("PDB", "mmCIF"):
+            base = _atom_line(call, fmt, BASE_ROW)
+            if len(base) != 80:
+                bad.setdefault("writer-layout", []).append(f"a {fmt} row is written as a line of {len(base)} columns, not 80")
+            for f, (val, text) in VARIANT.items():
+                if fmt == "mmCIF" and f == "charge":
+                    val = -1  # the mmCIF item holds an integer
+                line = _atom_line(call, fmt, dict(BASE_ROW, **{f: val}))
+                diff = [i for i in range(max(len(base), len(line))) if (base[i] if i < len(base) else None) != (line[i] if i < len(line) else None)]
+                lo, hi = sp["atom"][f]
+                cols = (min(diff), max(diff) + 1) if diff else None
+                if fmt == "PDB":
+                    layout[f] = cols
+                if not diff or cols[0] < lo or cols[1] > hi:
+                    bad.setdefault("writer-layout", []).append(f"{fmt} row: changing {f} changes columns {None if cols is None else (cols[0] + 1, cols[1])}, the format gives {f} columns {lo + 1}-{hi}")
+                elif line[lo:hi] != text:
+                    bad.setdefault("writer-layout", []).append(f"{fmt} row: {f} = {val!r} is written as `{line[lo:hi]}` in columns {lo + 1}-{hi}, the format says `{text}`")
+                if len(line) != 80 and len(base) == 80:
+                    bad.setdefault("writer-layout", []).append(f"{fmt} row with {f} = {val!r}: the line has {len(line)} columns")
+            for f, val, text, rule in SHORT:
+                v = val
+                if fmt == "mmCIF" and f == "charge":
+                    if isinstance(val, str) and val and val[-1] in "+-":
+                        continue  # digit+sign strings are PDB values; the mmCIF item is an integer
+                row = dict(BASE_ROW, **{f: v})
+                try:
+                    line = _atom_line(call, fmt, row)
+                except Raised as ex:
+                    bad.setdefault(rule, []).append(f"{fmt} row with {f} = {val!r}: write_pdb raises {ex.name}")
+                    continue
+                except Unknown:
+                    raise
+                except Exception as ex:
+                    bad.setdefault(rule, []).append(f"{fmt} row with {f} = {val!r}: write_pdb raises {type(ex).__name__} ({str(ex)[:40]})")
+                    continue
+                lo, hi = sp["atom"][f]
+                if line[lo:hi] != text or len(line) != 80:
+                    bad.setdefault(rule, []).append(f"{fmt} row: {f} = {val!r} is written as `{line[lo:hi]}` (columns {lo + 1}-{hi}, line of {len(line)}), the format says `{text}`")
+    except Unknown as ex:
+        chk.ok("atom-line-eval", fm.where, f"the atom line is not evaluable on probe rows ({str(ex)[:80]}): the abstract width reading of the formatter decides")
+        return None
+    except Raised as ex:
+        chk.ok("atom-line-eval", fm.where, f"probe rows are refused ({ex.name}): the abstract width reading of the formatter decides")
+        return None
+    texts = {
+        "writer-layout": "evaluated on probe rows (PDB and mmCIF row format): every field is written to its own columns of the 80-column record, full-width values fill them exactly",
+        "justification": "evaluated: serial, residue name, residue number and element right-justified, record name left-justified, absent optional fields blank",
+        "atom-name-alignment": "evaluated: names of 1-3 characters starting with a letter begin in column 14, 4-character names and names starting with a digit in column 13",
+        "numeric-format": "evaluated: coordinates with three decimals in 8 columns, occupancy and B-factor with two decimals in 6 columns, rounded",
+        "charge-format": "evaluated: a numeric charge n is written as |n| followed by its sign, digit+sign strings are kept, absent / zero charge is blank",
+    }
+    with evidence(chk, *texts):
+        for rule, text in texts.items():
+            if rule in bad:
+                chk.violation(rule, fm.where, "; ".join(bad[rule][:3]), K(fm, f"atom-line:{rule}"), found=bad[rule][:6])
+            elif rule == "writer-layout":
+                for f in sp["atom"]:
+                    lo, hi = sp["atom"][f]
+                    chk.ok(rule, fm.where, f"evaluated: {f} is written to columns {lo + 1}-{hi}")
+                chk.ok(rule, fm.where, "evaluated: the record is 80 columns long for every probe row")
+                chk.ok(rule, fm.where, text)
+            else:
+                chk.ok(rule, fm.where, text)
+    return {f: c for f, c in layout.items() if c is not None}
+
+
+# --------------------------------------------------------------------------------------------------------------------
+# round 4: the four round trips of the statement, every step interpreted (write_pdb, write_cif, parse_pdb_atoms, parse_cif_atoms)
+# --------------------------------------------------------------------------------------------------------------------
+class _CifSink:
+    """What write_cif hands to the mmcif library: DataContainer / DataCategory / IoAdapterPy as recording stubs."""
+
+    def __init__(self):
+        self.written: List[Any] = []
+
+    def env(self) -> Dict[str, Any]:
+        sink = self
+
+        class Category:
+            _folder_stub = True
+
+            def __init__(self, name, attributeNameList=None, rowList=None, *a, **k):
+                self.name, self.attrs, self.rows = name, list(attributeNameList or []), [list(r) for r in (rowList or [])]
+
+            def append(self, row):
+                self.rows.append(list(row))
+
+            def appendAttribute(self, a):
+                self.attrs.append(a)
+
+            def getAttributeList(self):
+                return list(self.attrs)
+
+            def getRowList(self):
+                return [list(r) for r in self.rows]
+
+        class Container:
+            _folder_stub = True
+
+            def __init__(self, name, *a, **k):
+                self.name, self.cats = name, []
+
+            def append(self, cat):
+                self.cats.append(cat)
+
+        class Adapter:
+            _folder_stub = True
+
+            def writeFile(self, path, containerList=None, *a, **k):
+                sink.written = list(containerList or [])
+                return True
+
+        from checks.c08e import _TmpFile
+
+        class Tmp(_TmpFile):
+            def read(self):
+                return "<mmCIF text of the categories handed to the writer>"
+
+        return {"DataContainer": Container, "DataCategory": Category, "IoAdapterPy": Adapter, "IoAdapterCore": Adapter, "tempfile": Obj("tempfile", NamedTemporaryFile=Tmp), "os": Obj("os", remove=lambda p: None, unlink=lambda p: None)}
+
+    def atom_site(self):
+        for c in self.written:
+            for cat in getattr(c, "cats", []):
+                if getattr(cat, "name", None) == "atom_site":
+                    return cat
+        return None
+
+
+def module_function(repo, name: str, extra: Dict[str, Any]):
+    from sa.frame import pd_namespace
+
+    fi = repo.func(M, name)
+    m = repo.module(M)
+    names, todo = set(), [astq.callee_name(c) for c in ast.walk(fi.node) if isinstance(c, ast.Call)]
+    while todo:
+        n = todo.pop()
+        if n in names or n not in m.funcs or n == name:
+            continue
+        names.add(n)
+        todo += [astq.callee_name(c) for c in ast.walk(m.funcs[n].node) if isinstance(c, ast.Call)]
+    env: Dict[str, Any] = {"io": Obj("io", StringIO=Buffer), "StringIO": Buffer, "pd": pd_namespace(), "object": object, "str": str, "bytes": bytes}
+    env.update(extra)
+    env.update(module_callables(repo, M, names=names, outer=env))
+    return fi, func_callable(repo, M, fi.node, env, max_steps=60000)
+
+
+CROSS_ROWS = [
+    # record, serial, name, altLoc, resName, chain, resSeq, iCode, x, y, z, occupancy, B, element, charge, model
+    ("ATOM", 1, "P", None, "G", "A", -2, None, 1.5, -2.25, 30.125, 1.0, 20.5, "P", None, 1),
+    ("ATOM", 2, "C4'", "A", "G", "A", -2, None, -11.001, 0.0, 7.0, 0.5, 5.25, "C", None, 1),
+    ("ATOM", 3, "HO5'", "B", "PSU", "A", 10, "A", 100.0, 200.5, -300.75, 0.25, 99.99, "H", None, 1),
+    ("HETATM", 4, "MG", None, "MG", "B", 301, None, 4.0, 5.0, 6.0, 1.0, 12.0, "MG", "2+", 1),
+    ("HETATM", 5, "CL", None, "CL", "B", 302, None, -4.0, -5.0, -6.0, 0.75, 13.0, "CL", "1-", 1),
+    ("ATOM", 6, "P", None, "G", "A", -2, None, 1.75, -2.5, 30.25, 1.0, 21.5, "P", None, 2),
+]
+PDB_FIELDS = ["record_type", "serial", "name", "altLoc", "resName", "chainID", "resSeq", "iCode", "x", "y", "z", "occupancy", "tempFactor", "element", "charge", "model"]
+TOL = {"x": 0.0005, "y": 0.0005, "z": 0.0005, "occupancy": 0.005, "tempFactor": 0.005}  # the rows carry 3 resp. 2 decimals: they come back as written
+
+
+def _rows_of(frame, fields: List[str]) -> List[Dict[str, Any]]:
+    from sa.frame import isna
+
+    out = []
+    for i in range(len(frame.index)):
+        out.append({f: (None if f not in frame._cols or isna(frame._cols[f][i]) else frame._cols[f][i]) for f in fields})
+    return out
+
+
+def _field_same(f: str, a: Any, b: Any) -> bool:
+    if a in (None, "") and b in (None, ""):
+        return True
+    if a is None or b is None:
+        return False
+    if f in TOL:
+        try:
+            return abs(float(a) - float(b)) <= TOL[f]
+        except (TypeError, ValueError):
+            return False
+    if f == "charge":
+        def norm_charge(v):
+            t = str(v).strip()
+            if len(t) == 2 and t[0].isdigit() and t[1] in "+-":
+                return int(t[0]) * (1 if t[1] == "+" else -1)
+            try:
+                return int(float(t))
+            except ValueError:
+                return t
+        return norm_charge(a) == norm_charge(b)
+    return str(a) == str(b)
+
+
+def _near(a: Any, b: Any) -> bool:
+    """numerically the same value up to a lost decimal: a matter of precision, not of which field goes where"""
+    try:
+        return a is not None and b is not None and abs(float(a) - float(b)) < 0.06
+    except (TypeError, ValueError):
+        return False
+
+
+def check_cross_paths_eval(chk) -> bool:
+    """PDB->PDB, mmCIF->mmCIF, PDB->mmCIF->PDB and mmCIF->PDB->mmCIF on representative rows, every writer and reader interpreted (the
+    mmcif library is a recording stub between write_cif and parse_cif_atoms).  Rules pdb-round-trip, cif-to-cif, field-map-pdb-to-cif,
+    field-map-cif-to-pdb, value-domain, null-agreement."""
+    from checks.c08e import _Category, V2CifReader, V2Reader
+    from sa.frame import Frame, frame_from_rows, isna
+
+    repo = chk.repo
+    wc = repo.func(M, "write_cif")
+    bad: Dict[str, List[str]] = {}
+    try:
+        sink = _CifSink()
+        _, w_pdb = module_function(repo, "write_pdb", {})
+        _, w_cif = module_function(repo, "write_cif", sink.env())
+        r_pdb = V2Reader(repo)
+        r_cif = V2CifReader(repo)
+
+        def to_pdb_text(table):
+            t = w_pdb(table, None)
+            if not isinstance(t, str):
+                raise Unknown("write_pdb(df, None) does not return text")
+            return t.split("\n")
+
+        def to_cif(table):
+            sink.written = []
+            w_cif(table, None)
+            cat = sink.atom_site()
+            if cat is None:
+                raise Unknown("write_cif does not hand an atom_site category to the mmcif writer")
+            if any(len(r) != len(cat.attrs) for r in cat.rows):
+                bad.setdefault("field-map-pdb-to-cif", []).append(f"write_cif writes rows of {sorted({len(r) for r in cat.rows})} values under {len(cat.attrs)} item names: the columns shift")
+                raise Raised("AssertionError", "ragged atom_site category")
+            r_cif.category = _Category(cat.attrs, cat.rows)
+            res = r_cif.call("data_rnapolis\n#\n")
+            if not isinstance(res, Frame):
+                raise Unknown("parse_cif_atoms does not return a table")
+            return res, cat
+
+        def read_pdb(lines):
+            return r_pdb.read([l for l in lines if l != ""])
+
+        src = [dict(zip(PDB_FIELDS, r)) for r in CROSS_ROWS]
+        pdb_table = read_pdb(to_pdb_text(frame_from_rows(src, "PDB")))  # a table as the reader types it
+        # PDB -> PDB
+        for k, (a, b) in enumerate(zip(src, _rows_of(pdb_table, PDB_FIELDS))):
+            for f in PDB_FIELDS:
+                if not _field_same(f, a[f], b[f]):
+                    bad.setdefault("pdb-round-trip", []).append(f"PDB->PDB: {f} of row {k + 1} is {a[f]!r}, read back as {b[f]!r}")
+        if len(pdb_table.index) != len(src):
+            bad.setdefault("pdb-round-trip", []).append(f"PDB->PDB: {len(src)} rows written, {len(pdb_table.index)} read back")
+        # PDB -> mmCIF: every item carries its PDB field
+        cif_table, cat = to_cif(pdb_table)
+        for k, a in enumerate(src):
+            if k >= len(cif_table.index):
+                break
+            for f, items in PDB_TO_CIF_ROW.items():
+                for it in items:
+                    got = None if it not in cif_table._cols or isna(cif_table._cols[it][k]) else cif_table._cols[it][k]
+                    if not _field_same(f, a[f], got):
+                        rule = "value-domain" if f == "charge" else ("null-agreement" if a[f] is None else ("numeric-format" if _near(a[f], got) else "field-map-pdb-to-cif"))
+                        bad.setdefault(rule, []).append(f"PDB->mmCIF: {f} = {a[f]!r} of row {k + 1} arrives in item {it} as {got!r}")
+        if len(cif_table.index) != len(src):
+            bad.setdefault("field-map-pdb-to-cif", []).append(f"PDB->mmCIF: {len(src)} rows written, {len(cif_table.index)} read back")
+        # PDB -> mmCIF -> PDB
+        back = read_pdb(to_pdb_text(cif_table))
+        for k, (a, b) in enumerate(zip(src, _rows_of(back, PDB_FIELDS))):
+            for f in PDB_FIELDS:
+                if not _field_same(f, a[f], b[f]):
+                    rule = "value-domain" if f == "charge" else ("numeric-format" if _near(a[f], b[f]) else "field-map-cif-to-pdb")
+                    bad.setdefault(rule, []).append(f"PDB->mmCIF->PDB: {f} of row {k + 1} is {a[f]!r}, comes back as {b[f]!r}")
+        # mmCIF -> mmCIF (a table with items PDB does not know, missing values of both kinds)
+        extra = []
+        for k, a in enumerate(src):
+            row = {it: a[f] for f, items in PDB_TO_CIF_ROW.items() for it in items}
+            row["pdbx_formal_charge"] = None if a["charge"] is None else (int(a["charge"][0]) * (1 if a["charge"][1] == "+" else -1))
+            row.update({"label_entity_id": "1" if k < 3 else "2", "label_seq_id": None if a["record_type"] == "HETATM" else 40 + k, "pdbx_sifts_xref_db_name": "PDB" if k % 2 else None})
+            # label items that differ from the author items: the PDB fields are the author's
+            row.update({"label_asym_id": {"A": "C", "B": "D"}[a["chainID"]], "label_atom_id": a["name"].replace("'", "*"), "label_comp_id": a["resName"].lower()})
+            extra.append(row)
+        r_cif.category = _Category(list(extra[0]), [["?" if v is None else (f"{v:.3f}" if isinstance(v, float) else str(v)) for v in r.values()] for r in extra])
+        c0 = r_cif.call("data_src\n#\n")
+        c1, _ = to_cif(c0)
+        for it in c0._cols:
+            for k in range(len(c0.index)):
+                a0 = None if isna(c0._cols[it][k]) else c0._cols[it][k]
+                a1 = None if it not in c1._cols or k >= len(c1.index) or isna(c1._cols[it][k]) else c1._cols[it][k]
+                same = (a0 is None and a1 is None) or (a0 is not None and a1 is not None and (str(a0) == str(a1) or _field_same("x", a0, a1)))
+                if not same:
+                    bad.setdefault("null-agreement" if a0 is None else ("numeric-format" if _near(a0, a1) else "cif-to-cif"), []).append(f"mmCIF->mmCIF: item {it} of row {k + 1} is {a0!r}, read back as {a1!r}")
+        if len(c1.index) != len(c0.index):
+            bad.setdefault("cif-to-cif", []).append(f"mmCIF->mmCIF: {len(c0.index)} rows written, {len(c1.index)} read back")
+        # mmCIF -> PDB -> mmCIF on the items PDB carries
+        c2, _ = to_cif(read_pdb(to_pdb_text(c0)))
+        for f, items in PDB_TO_CIF_ROW.items():
+            it = items[-1] if len(items) == 2 else items[0]  # the author item where both exist
+            for k in range(min(len(c0.index), len(c2.index))):
+                a0 = None if isna(c0._cols[it][k]) else c0._cols[it][k]
+                a2 = None if it not in c2._cols or isna(c2._cols[it][k]) else c2._cols[it][k]
+                if not _field_same(f, a0, a2):
+                    bad.setdefault("value-domain" if f == "charge" else "field-map-cif-to-pdb", []).append(f"mmCIF->PDB->mmCIF: item {it} of row {k + 1} is {a0!r}, comes back as {a2!r}")
+    except Unknown as ex:
+        chk.ok("cross-path-eval", wc.where, f"the round trips are not evaluable end to end ({str(ex)[:90]}): the pinned-form rules decide")
+        return False
+    except Raised as ex:
+        if not bad:
+            chk.ok("cross-path-eval", wc.where, f"a representative table is refused ({ex.name}): the pinned-form rules decide")
+            return False
+    texts = {
+        "pdb-round-trip": "evaluated end to end (write_pdb -> parse_pdb_atoms): every field of every row comes back",
+        "cif-to-cif": "evaluated end to end (write_cif -> parse_cif_atoms): every item of every row comes back, also items PDB does not know",
+        "field-map-pdb-to-cif": "evaluated: every mmCIF item of a PDB row carries its own PDB field (label and author items alike), rows and items stay aligned",
+        "field-map-cif-to-pdb": "evaluated: PDB->mmCIF->PDB and mmCIF->PDB->mmCIF give back record type, serial, names, alternate location, chain, number, insertion code, coordinates, occupancy, B, element and model",
+        "value-domain": "evaluated: formal charges survive both cross paths (2+ <-> 2, 1- <-> -1)",
+        "null-agreement": "evaluated: absent values written by either writer are absent values for the reader of the format",
+        "numeric-format": "evaluated: coordinates keep three decimals, occupancy and B-factor two, on every path",
+    }
+    with evidence(chk, *texts):
+        for rule, text in texts.items():
+            if rule in bad:
+                chk.violation(rule, wc.where, "; ".join(bad[rule][:3]), K(wc, f"cross:{rule}"), found=bad[rule][:6])
+            else:
+                chk.ok(rule, wc.where, text)
+                if rule in ("field-map-pdb-to-cif",):
+                    chk.ok(rule, wc.where, text + " [second cross path]")
+    return True
